@@ -16,6 +16,7 @@ def check(ctx):
     rep.floor("token-level table rows compared with the grammar", n, 38)
     from rules import escapes
     escapes.check_element_encoding(ctx, rep)
+    escapes.check_cell_presence_only(ctx, rep, residual=False)  # N denotes the same cell as an empty one in the grammar
     nn = escapes.check_nesting_flag(ctx, rep)
     rep.floor("zinc_encode call sites (nesting flag)", nn, 5)
     ns = escapes.check_separators(ctx, rep)
